@@ -33,7 +33,7 @@ def run(tier, replay):
             p = os.path.join(wd, "replay_cases.ndjson")
             vlib.write_ndjson(p, [case["case"]])
             outp = os.path.join(wd, "replay_out.ndjson")
-            vlib.harness(["mmr", "replay", "--cases", p, "--out", outp])
+            vlib.harness(["mmr", "rewind" if case.get("kind") == "history" else "replay", "--cases", p, "--out", outp])
             for r in vlib.read_ndjson(outp):
                 for mm in r["mismatches"]:
                     rep.violation(obj["signature"], case, json.dumps(mm))
@@ -69,6 +69,31 @@ def run(tier, replay):
             sig = "mmr:replay:%s" % mm["what"] + (":" + mm["class"].split(":")[0] if "class" in mm else "")
             rep.violation(sig, {"kind": "case", "case": c, "mismatch": mm}, json.dumps(mm))
 
+    # (M'+A') pushes and rewinds: the state is always the MMR of its leaf count (RewindIsPrefix, exhaustive to 40
+    # leaves); TLC-simulated push/rewind histories are executed on a data-carrying and a hash-only VecBackend
+    rw = vlib.tlc("mc/MC_MMRRewind", "mc/MC_MMR_rewind", workers=4, coverage=False, timeout=1500)
+    if rw.invariant_violated:
+        print(rw.out[-3000:])
+        raise ToolError("MMR.tla invariant %s violated inside the model (rewind configuration)" % rw.invariant_violated)
+    vlib.tlc_ok(rw, "MC_MMR_rewind")
+    states += rw.distinct
+    trans += rw.generated
+    hs = vlib.tlc("mc/MC_MMRRewind", "mc/MC_MMR_rwsim", workers=1, coverage=False, simulate=400 if thorough else 120, depth=24,
+                  seed_=vlib.seed(), timeout=1500)
+    hists = [json.loads(x) for x in dict.fromkeys(hs.printed("MMRHIST"))]
+    with_rewind = [h for h in hists if any(o["op"] == "rewind" for o in h["ops"])]
+    if len(with_rewind) < 10:
+        raise ToolError("too few push/rewind histories emitted")
+    hp = os.path.join(wd, "hists.ndjson")
+    vlib.write_ndjson(hp, hists)
+    hout = os.path.join(wd, "hists_out.ndjson")
+    vlib.harness(["mmr", "rewind", "--cases", hp, "--out", hout])
+    hchecks = 0
+    for h, rr in zip(hists, vlib.read_ndjson(hout)):
+        hchecks += rr["checks"]
+        for mm in rr["mismatches"]:
+            rep.violation("mmr:history:%s:%s" % (mm["what"], mm.get("kind", "-")), {"kind": "history", "case": h, "mismatch": mm}, json.dumps(mm))
+
     # (B) recorded return values of the real position arithmetic against the construction
     leaves = 2100 if thorough else 600
     big = 3000 if thorough else 400
@@ -85,7 +110,9 @@ def run(tier, replay):
 
     rep.coverage = {
         "states": states, "transitions": trans,
-        "traces_validated_against_impl": 1 + len(cases),
+        "traces_validated_against_impl": 1 + len(cases) + len(hists),
+        "push_rewind_histories": len(hists), "histories_with_rewind": len(with_rewind), "history_checks": hchecks,
+        "rewind_model": {"config": "mc/MC_MMR_rewind", "states": rw.distinct, "transitions": rw.generated},
         "samples": [{"case": {"nl": cases[2]["nl"], "root": cases[2]["root"], "proof0": cases[2]["proofs"][0]}},
                     {"trace_events": info["events"], "first": vlib.read_ndjson(tp)[:2]}],
         "exhaustive": True,
